@@ -100,6 +100,13 @@ impl noq::Runtime for Runtime {
         wasm_bindgen_futures::spawn_local(future);
     }
 
+    /// Verification hook: noq reads the clock through its runtime; under simulation this must be
+    /// tokio's pausable clock, the same one its timers run on.
+    #[cfg(iroh_verif)]
+    fn now(&self) -> std::time::Instant {
+        tokio::time::Instant::now().into_std()
+    }
+
     // We're not actually using this function in iroh
     #[cfg(not(wasm_browser))]
     fn wrap_udp_socket(
